@@ -33,7 +33,8 @@ THEOREMS = ['C14_squeeze_closed_form', 'C14_content_layout',
             'C14_blocks_layout', 'C14_blocks_layout_message',
             'C14_split_cell_void', 'C14_split_cell_material',
             'C14_front_layout', 'C14_surface_card_layout',
-            'C14_surface_layout_invariant', 'C14_data_card_layout']
+            'C14_surface_layout_invariant', 'C14_data_card_layout',
+            'C14_to_float_spellings']
 TRUSTED = [
     'hand-written model coq/C14/Model.v (modelled, tied by execution only); '
     'regexes re-implemented as scanners: tied exhaustively on short strings '
@@ -111,6 +112,8 @@ EXHAUSTIVE = [
     ('cell_split', ' 01a(', 5, 7, [('', ''), ('1 0 ', ''), ('1 1 ', ''), ('7 like 1 but', '')]),
     ('cell_split', ' 0)*:i-', 3, 5, [('3 0 -1', ''), ('3 2 -1.0 (1', ''), ('3 00 ', ' imp:n=1')]),
     ('opt_tokens', ' :=(Aa)', 4, 6, [('', ''), ('imp', '1')]),
+    ('to_float', '1.+-eEdD', 5, 7, [('', ''), ('1.5', ''), ('-.', '0')]),
+    ('to_float', '10.+-d', 6, 8, [('', '')]),
     ('front', 'a \nc', 5, 7, [('t\n', ''), ('t\n1 0 1\n\n', ''), ('message:\n\nt\n', '\n\na')]),
 ]
 
@@ -431,11 +434,11 @@ def fortran_only(tok):
 
 
 def known_class(base_text, text, base, new, msg):
-    '''Narrow class of the reproduced defect DESIGN §8 #13: the rewrite differs
-    from the original in exactly one blank-separated token, that token is a
-    parameter of a surface card or of a TR card written in a spelling only
-    Fortran reads (5.0+0, 1.5d1), the original converts and the rewrite dies
-    with float()'s ValueError on that very token.'''
+    '''Narrow class of the remaining Fortran-spelling defect: the rewrite
+    differs from the original in exactly one blank-separated token, which is
+    the importance of a cell card (imp:n=1 -> imp:n=1.0+0) written in a
+    spelling only Fortran reads, the original converts and the rewrite dies
+    with float()'s ValueError on that very number.'''
     if base[0] != 'ok' or new != ('err', 'ValueError'):
         return None
     a, b = base_text.split(), text.split()
@@ -444,35 +447,21 @@ def known_class(base_text, text, base, new, msg):
     diff = [(x, y) for x, y in zip(a, b) if x != y]
     if len(diff) != 1:
         return None
-    # "(1.0+0" / "0.5d0)": the number inside the parenthesis
-    old, tok = [re.sub(r'^[^()]*\(|\).*$', '', t) for t in diff[0]]
-    if not fortran_only(tok):
+    m_old = re.fullmatch(r'(imp:[a-z,]+=)(\S+)', diff[0][0], flags=re.I)
+    m_new = re.fullmatch(r'(imp:[a-z,]+=)(\S+)', diff[0][1], flags=re.I)
+    if not m_old or not m_new or m_old.group(1) != m_new.group(1):
         return None
-    if impl.mcnp_float(old) != impl.mcnp_float(tok):
+    old, tok = m_old.group(2), m_new.group(2)
+    if not fortran_only(tok) or impl.mcnp_float(old) != impl.mcnp_float(tok):
         return None
     if 'could not convert string to float' not in msg \
             or repr(tok).lower() not in msg.lower():
         return None
-    # the card holding the token: a surface card, a TR data card, or a cell
-    # card where the token stands inside the parentheses of FILL= / TRCL=
+    # the token stands on a cell card
     from MIP.mip.blocks import get_block_positions
-    from MIP.mip.cards import get_cards
-    from MIP.mip.main import Card
     dres = get_block_positions(text)
-    for key in 'csd':
-        block = text[slice(*dres[key][0])]
-        for lines, _, _ in get_cards(block, skipcomments=True):
-            content = Card(lines=lines).content()
-            words = content.replace('(', ' ').replace(')', ' ').split()
-            if tok not in words[1:]:
-                continue
-            if key == 's' or (key == 'd' and
-                              words[0].lower().lstrip('*').startswith('tr')):
-                return 'fortran_spelling_surface_or_tr'
-            if key == 'c' and re.search(
-                    r'(fill|trcl)\s*=?\s*\d*\s*\([^()]*' + re.escape(tok)
-                    + r'[^()]*\)', content, flags=re.I):
-                return 'fortran_spelling_inline_fill_or_trcl'
+    if diff[0][1] in text[slice(*dres['c'][0])].split():
+        return 'fortran_spelling_cell_importance'
     return None
 
 
@@ -529,22 +518,21 @@ def run_sweep(res, tier, rng):
                     res, args)
         if k == 0:
             res.sample({'deck': base_text, 'rewrite': text})
-        # separate, labelled stream: ONE surface / TR parameter of the
+        # separate, labelled stream: ONE importance of a cell card of the
         # canonical text in a Fortran-only spelling (known defect); nothing
         # else is changed, so the class predicate stays narrow
         if base[0] == 'ok' and k % 4 == 0:
-            for where in ('surface_or_tr', 'inline'):
-                text = D.render_one_fortran(deck, rng, where)
-                if text is not None:
-                    n_known += 1
-                    res.seen(text)
-                    res.count('sweep:stream:fortran_' + where)
-                    compare(base_text, base, text,
-                            {'used': ['number:fortran-' + where],
-                             'stream': 'fortran_' + where}, True, res, args)
+            text = D.render_one_fortran(deck, rng)
+            if text is not None:
+                n_known += 1
+                res.seen(text)
+                res.count('sweep:stream:fortran_cell_importance')
+                compare(base_text, base, text,
+                        {'used': ['number:fortran-cell-importance'],
+                         'stream': 'fortran_cell_importance'}, True, res, args)
     res.obligation(f'sweep: {n_decks} decks x {n_rewrites} random layouts '
-                   f'(+ {n_known} single Fortran-only respellings of a surface, '
-                   f'TR or inline FILL/TRCL parameter, labelled stream), {n_ok} converted, '
+                   f'(+ {n_known} single Fortran-only respellings of a cell-card '
+                   f'importance, labelled stream), {n_ok} converted, '
                    f'{n_fail} rejected (the rewrite must be rejected the same '
                    'way)', n_ok > n_fail, 'most generated decks must convert')
 
@@ -552,23 +540,28 @@ def run_sweep(res, tier, rng):
 # ---------------------------------------------------------------------------
 # known findings
 # ---------------------------------------------------------------------------
-WITNESS_BASE = ('witness\n1 1 {rho} -1 imp:n=1\n2 0 1 -2 fill=1 ({x} 0 0) imp:n=1\n'
+WITNESS_BASE = ('witness\n1 1 {rho} -1 imp:n={i}\n2 0 1 -2 fill=1 ({x} 0 0) imp:n=1\n'
                 '3 0 -3 u=1 imp:n=1\n4 0 3 u=1 imp:n=1\n5 0 2 imp:n=0\n\n'
                 '1 1 so {r}\n2 so 9.0\n3 so 1.0\n\ntr1 {t} 0 0\nm1 1001 2 8016 {f}\n')
+WITNESS_DEFAULT = dict(rho='-1.0', r='5.0', t='1.0', f='1.0', x='1.0', i='1')
 WITNESSES = [
-    ('SO 5.0+0', dict(rho='-1.0', r='5.0+0', t='1.0', f='1.0', x='1.0')),
-    ('TR1 1.0+0 0 0', dict(rho='-1.0', r='5.0', t='1.0+0', f='1.0', x='1.0')),
-    ('SO 5.0d0', dict(rho='-1.0', r='5.0d0', t='1.0', f='1.0', x='1.0')),
-    ('FILL=1 (1.0+0 0 0)', dict(rho='-1.0', r='5.0', t='1.0', f='1.0', x='1.0+0')),
-    # spellings the converter handles (densities, fractions): must stay fine
-    ('density -1.0+0', dict(rho='-1.0+0', r='5.0', t='1.0', f='1.0', x='1.0')),
-    ('density -1.0e0', dict(rho='-1.0e0', r='5.0', t='1.0', f='1.0', x='1.0')),
-    ('fraction 1.0d0', dict(rho='-1.0', r='5.0', t='1.0', f='1.0d0', x='1.0')),
+    # open: importance of a cell card
+    ('IMP:N=1.0+0 on a cell card', dict(i='1.0+0')),
+    ('IMP:N=.1d1 on a cell card', dict(i='.1d1')),
+    # repaired in /repo ffaf98c (MIP.mip.datacard.to_float): must stay fine
+    ('SO 5.0+0', dict(r='5.0+0')),
+    ('TR1 1.0+0 0 0', dict(t='1.0+0')),
+    ('SO 5.0d0', dict(r='5.0d0')),
+    ('SO .5D+1', dict(r='.5D+1')),
+    ('FILL=1 (1.0+0 0 0)', dict(x='1.0+0')),
+    ('density -1.0+0', dict(rho='-1.0+0')),
+    ('density -1.0e0', dict(rho='-1.0e0')),
+    ('fraction 1.0d0', dict(f='1.0d0')),
 ]
 
 
 def run_witnesses(res):
-    base_text = WITNESS_BASE.format(rho='-1.0', r='5.0', t='1.0', f='1.0', x='1.0')
+    base_text = WITNESS_BASE.format(**WITNESS_DEFAULT)
     base = outcome(convert(base_text))
     if base[0] != 'ok':
         res.violation('impl-violation', 'the witness deck no longer converts: '
@@ -576,7 +569,7 @@ def run_witnesses(res):
                       {'input': {'deck': base_text, 'rewrite': base_text}},
                       found_input=True)
     for label, fields in WITNESSES:
-        text = WITNESS_BASE.format(**fields)
+        text = WITNESS_BASE.format(**dict(WITNESS_DEFAULT, **fields))
         res.seen(text)
         ok = compare(base_text, base, text,
                      {'used': ['number respelling ' + label], 'stream': 'witness'},
